@@ -44,7 +44,8 @@ def main():
                 capture_output=True, text=True)
             last = t.stdout.strip().splitlines()[-1] if t.stdout.strip() \
                 else ""
-            print("repo tests on mutant:", last)
+            print("repo tests on mutant:", "PASS" if t.returncode == 0
+                  else "FAIL", "|", last)
             if t.returncode != 0:
                 print("  -> mutant FAILS the existing test suite "
                       "(unrealistic)")
